@@ -18,6 +18,9 @@ func init() {
 	text := "a redial takes no second slot: on the isRedial edge Overloader.PostDial returns nil without reaching the connection limiter - the core runs no PostDisconnect between a loss and a successful redial, so a slot taken again is never given back"
 	register(&Rule{ID: "C13.11", Prop: "C13", Min: 1, Text: text, Run: runRedialNoSlot})
 	register(&Rule{ID: "C18.9", Prop: "C18", Min: 1, Text: text, Run: runRedialNoSlot})
+	register(&Rule{ID: "C18.10", Prop: "C18", Min: 1,
+		Text: "a limiter created later starts from the sessions already admitted: on the edge where updateConnLimiter creates the connection limiter it counts the recorded admissions (Range over the admission evidence) into it - every admitted session releases a slot when it ends, so a limiter starting at zero goes negative and admits limit+k",
+		Run:  runC18_10})
 	register(&Rule{ID: "C09.8", Prop: "C09", Min: 2,
 		Text: "reply-side stages run under the per-call lock: in bindReply postReadReplyHeader and preReadReplyBody are called with callCmd.mu held - AsyncCall holds that mutex from PreWriteCall to PostWriteCall, which is what orders the write-side stages of a call before its reply-side stages",
 		Run:  runC09_8})
@@ -795,4 +798,49 @@ func runC11_9(c *Ctx) {
 		c.fact("value-identity")
 		c.Check(ok && n >= 1, "plain codec "+setter+" stores the input bytes", p.Pos(fn.Pos()), "a copy of the data parameter itself", "parseProperType stores a transformed version of its input (not the data parameter itself) through "+setter+": strings / byte slices with leading or trailing white space (or whatever the transformation removes) do not round-trip")
 	}
+}
+
+func runC18_10(c *Ctx) {
+	p := c.P
+	fn := p.Fn(olPkg, "Overloader", "updateConnLimiter")
+	ctor := p.FuncObj(olPkg, "newConnLimiter")
+	_, admIdx := p.FieldIndex(olPkg, "Overloader", "admitted")
+	olN := p.Named(olPkg, "Overloader")
+	ctors := CallsTo(fn, ctor)
+	if len(ctors) != 1 {
+		c.Undec("limiter creation counts the admitted sessions", p.Pos(fn.Pos()), fmt.Sprintf("expected one newConnLimiter call, found %d", len(ctors)))
+		return
+	}
+	// after the creation: a Range over o.admitted whose callback counts, and the count handed to a method of the limiter
+	// that adds it to the admission counter (tmp)
+	_, tmpIdx := p.FieldIndex(olPkg, "connLimiter", "tmp")
+	clN := p.Named(olPkg, "connLimiter")
+	ranged, counted := false, false
+	for _, in := range p.ReachableFrom(ctors[0], func(i ssa.Instruction) bool {
+		call, ok := i.(*ssa.Call)
+		return ok && CalleeObj(call) != nil && CalleeObj(call).Name() == "Range"
+	}, nil, nil) {
+		call := in.(*ssa.Call)
+		if fr, _, ok := FieldOfAddr(CallRecv(call)); ok && fr.Struct == olN && fr.Index == admIdx {
+			ranged = true
+		}
+	}
+	for _, call := range AllCalls(fn) {
+		h := call.Common().StaticCallee()
+		if h == nil || h.Signature.Recv() == nil || derefNamed(h.Signature.Recv().Type()) != clN || !Dominates(ctors[0], call) {
+			continue
+		}
+		// the method atomically adds its parameter to tmp
+		Instrs(h, func(i ssa.Instruction) {
+			ac, ok := i.(*ssa.Call)
+			if !ok || CalleeObj(ac) == nil || CalleeObj(ac).FullName() != "sync/atomic.AddInt32" {
+				return
+			}
+			if isFieldAddr(ac.Call.Args[0], clN, tmpIdx) && len(h.Params) == 2 && ac.Call.Args[1] == ssa.Value(h.Params[1]) {
+				counted = true
+			}
+		})
+	}
+	c.fact("path-search")
+	c.Check(ranged && counted, "limiter creation counts the admitted sessions", p.InstrPos(ctors[0]), "Range over the admission evidence, count added to the new limiter's admission counter", "updateConnLimiter creates the connection limiter at zero although sessions admitted earlier (under no limit) are still connected: their releases drive the counter negative and more than the limit is admitted")
 }
